@@ -29,6 +29,33 @@ pub fn vx_slice_read<'a>(rem: &mut &'a [u8], buf: &mut [u8]) -> (r: std::io::Res
 //@ extract src/utils/lowmarkbufreader.rs const CACHE_LINE_SIZE
 //@ end
 
+// appending `read` bytes of the rest of the source behind a valid window gives a valid, longer window
+pub proof fn lemma_refill_window(buf2: Seq<u8>, b1: Seq<u8>, r1: Seq<u8>, t: Seq<u8>, abs: int, cap: int, read: int)
+    requires
+        0 <= abs, 0 <= cap, 0 <= read <= r1.len(), cap + read <= buf2.len(), b1.len() == buf2.len(), abs + cap <= t.len(),
+        r1 == t.skip(abs + cap),
+        b1.subrange(0, cap) == t.subrange(abs, abs + cap),
+        buf2.subrange(0, cap) == b1.subrange(0, cap),
+        buf2.subrange(cap, cap + read) == r1.subrange(0, read),
+    ensures
+        buf2.subrange(0, cap + read) == t.subrange(abs, abs + cap + read),
+        buf2.subrange(0, cap) == t.subrange(abs, abs + cap),
+        r1.skip(read) == t.skip(abs + cap + read),
+{
+    assert forall|i: int| 0 <= i < cap + read implies #[trigger] buf2.subrange(0, cap + read)[i] == t.subrange(abs, abs + cap + read)[i] by {
+        if i < cap {
+            assert(buf2.subrange(0, cap)[i] == b1.subrange(0, cap)[i]);
+            assert(b1.subrange(0, cap)[i] == t.subrange(abs, abs + cap)[i]);
+        } else {
+            assert(buf2.subrange(cap, cap + read)[i - cap] == r1.subrange(0, read)[i - cap]);
+            assert(r1[i - cap] == t.skip(abs + cap)[i - cap]);
+            assert(buf2.subrange(0, cap + read)[i] == buf2[i] && buf2.subrange(cap, cap + read)[i - cap] == buf2[i]);
+        }
+    }
+    assert(buf2.subrange(0, cap + read) =~= t.subrange(abs, abs + cap + read));
+    assert(r1.skip(read) =~= t.skip(abs + cap + read));
+}
+
 impl<R: VRead> LowMarkBufReader<R> {
     pub open spec fn buffered(&self) -> Seq<u8> { self.buf@.subrange(self.pos as int, self.cap as int) }
     pub open spec fn unread(&self) -> Seq<u8> { self.buffered() + self.inner.rest() }
@@ -111,10 +138,10 @@ impl<R: VRead> LowMarkBufReader<R> {
 //@   hint before `if read == 0 {`
 //@|    assert(self.buf@.subrange(self.pos as int, self.cap as int + read as int) =~= b1.subrange(self.pos as int, self.cap as int) + r1.subrange(0, read as int)); // O:fill.refill.append
 //@|    assert(r1 =~= r1.subrange(0, read as int) + r1.skip(read as int));
-//@|    assert(self.buf@.subrange(0, self.cap as int + read as int) =~= b1.subrange(0, self.cap as int) + r1.subrange(0, read as int));
-//@|    assert(self.buf@.subrange(0, self.cap as int + read as int) =~= t.subrange(self.abs_pos as int, self.abs_pos + self.cap + read)); // O:fill.refill.window
-//@|    assert(self.buf@.subrange(0, self.cap as int) =~= t.subrange(self.abs_pos as int, self.abs_pos + self.cap));
-//@|    assert(r1.skip(read as int) =~= t.skip(self.abs_pos + self.cap + read));
+//@|    assert(self.buf@.subrange(0, self.cap as int) =~= b1.subrange(0, self.cap as int));
+//@|    assert(self.buf@.subrange(self.cap as int, self.cap as int + read as int) =~= r1.subrange(0, read as int));
+//@|    proof { lemma_refill_window(self.buf@, b1, r1, t, self.abs_pos as int, self.cap as int, read as int); }
+//@|    assert(self.buf@.subrange(0, self.cap as int + read as int) == t.subrange(self.abs_pos as int, self.abs_pos + self.cap + read)); // O:fill.refill.window
 //@   loop 1
 //@|    invariant_except_break
 //@|        !self.empty_last_read,
